@@ -93,7 +93,9 @@ class Enum(DataModel):
 
         for field in self.fields:
             # Remove surrounding quotes from field default value
-            field_default = str(field.default or "").strip("'\"")
+            if field.default is None:
+                continue
+            field_default = str(field.default).strip("'\"")
 
             # Compare values after removing quotes
             if field_default == str_value:
